@@ -121,7 +121,7 @@ AUTH_PRIMS = [
     (r"^ed25519_dalek::verifying::VerifyingKey::verify_strict$", "sig", "ed25519 verify_strict"),
 ]
 # Result-transparent wrappers around a checked call
-RESULT_WRAPPERS = re.compile(r"core::result::Result::<T, E>::(map_err|or|or_else)$|core::convert::Into::into$|core::convert::From::from$")
+RESULT_WRAPPERS = re.compile(r"core::result::Result::<T, E>::(map_err|or|or_else)$|core::convert::Into::into$|core::convert::From::from$|core::option::Option::<T>::(ok_or|ok_or_else)$")
 
 
 def auth_prim(t):
